@@ -398,6 +398,161 @@ Theorem C04_prefix_timechart_interval_cs_ds_refuted :
 Proof. exact tc_interval_prefix_cs_ds_refuted. Qed.
 Print Assumptions C04_prefix_timechart_interval_cs_ds_refuted.
 
+(* ================= distinct count (dc / estdc) =================
+   Model: SigM.AggDc.  Every route (group-by / timechart: blockresults.hllAddRawCval; without BY: stats.AddSegStatsNums at
+   query time, packer.addSegStatsNums at ingest time) feeds xxhash(key) of every value into a HyperLogLog sketch;
+   [hll_key] is the byte string that is hashed: the 8 little-endian bytes of the number BY ITS STORED TYPE (int64: two's
+   complement; uint64; float64: IEEE bits), the bytes of a string.  [dc_count l] = number of distinct keys = what the
+   sketch reports while it stores the hashes themselves (the harness compares up to 100 distinct values exactly, 2 % above);
+   merging blocks / segments / buckets = union ([dc_union], Hll.StrictUnion).  The sketch and the hash function are
+   outside the model (C04_dc_count_is_number_of_distinct_hashes: ANY hash that does not collide on the occurring keys
+   gives this count). *)
+From SigM Require Import AggDc.
+From SigP Require Import AggDcProofs.
+
+(* two different int64 values have different keys; the same for uint64 and for float64 bit patterns *)
+Theorem C04_dc_int_key_injective : forall a b, in_i64 a -> in_i64 b -> hll_key (SInt a) = hll_key (SInt b) -> a = b.
+Proof. exact key_int_inj. Qed.
+Print Assumptions C04_dc_int_key_injective.
+
+Theorem C04_dc_uint_key_injective : forall a b, in_u64 a -> in_u64 b -> hll_key (SUint a) = hll_key (SUint b) -> a = b.
+Proof. exact key_uint_inj. Qed.
+Print Assumptions C04_dc_uint_key_injective.
+
+Theorem C04_dc_float_key_injective : forall a b : N, (a < 18446744073709551616)%N -> (b < 18446744073709551616)%N ->
+  hll_key (SFlt a) = hll_key (SFlt b) -> a = b.
+Proof. exact key_flt_inj. Qed.
+Print Assumptions C04_dc_float_key_injective.
+
+(* a non-negative integer has one key whether it is stored as int64 or as uint64 *)
+Theorem C04_dc_int_uint_one_key : forall n, 0 <= n < two63d -> hll_key (SInt n) = hll_key (SUint n).
+Proof. exact key_int_uint_agree. Qed.
+Print Assumptions C04_dc_int_uint_one_key.
+
+(* for EVERY list of int64 (uint64) values - any magnitude, any sign, neighbours differing by 1 - the count is the
+   number of distinct values *)
+Theorem C04_dc_counts_distinct_integers : forall l, Forall in_i64 l ->
+  dc_count (map SInt l) = Z.of_nat (length (nodup Z.eq_dec l)).
+Proof. exact dc_count_ints. Qed.
+Print Assumptions C04_dc_counts_distinct_integers.
+
+Theorem C04_dc_counts_distinct_unsigned : forall l, Forall in_u64 l ->
+  dc_count (map SUint l) = Z.of_nat (length (nodup Z.eq_dec l)).
+Proof. exact dc_count_uints. Qed.
+Print Assumptions C04_dc_counts_distinct_unsigned.
+
+Example C04_dc_counts_distinct_integers_example :
+  Forall in_i64 [5; -5; 9007199254740993; 9007199254740992; 5; -9223372036854775808; 9223372036854775807] /\
+  dc_count (map SInt [5; -5; 9007199254740993; 9007199254740992; 5; -9223372036854775808; 9223372036854775807]) = 6.
+Proof. exact dc_count_ints_example. Qed.
+
+(* the hash function: any function that does not collide on the keys that occur gives the model's count *)
+Theorem C04_dc_count_is_number_of_distinct_hashes : forall (h : list N -> N) l,
+  (forall a b, In a l -> In b l -> h (hll_key a) = h (hll_key b) -> hll_key a = hll_key b) ->
+  Z.of_nat (length (nodup N.eq_dec (map (fun v => h (hll_key v)) l))) = dc_count l.
+Proof. exact dc_count_is_number_of_distinct_hashes. Qed.
+Print Assumptions C04_dc_count_is_number_of_distinct_hashes.
+
+(* order and repetition are irrelevant; the union of the sketches of two blocks is the sketch of their concatenation;
+   blocks / segments / buckets merged in any order and cut anywhere give the count of all events *)
+Theorem C04_dc_permutation : forall l1 l2, Permutation l1 l2 -> dc_count l1 = dc_count l2.
+Proof. exact (dc_count_perm hll_key). Qed.
+Print Assumptions C04_dc_permutation.
+
+Theorem C04_dc_union_is_concatenation : forall l1 l2,
+  length (dc_union (dc_keys l1) (dc_keys l2)) = length (dc_keys (l1 ++ l2)).
+Proof. exact dc_union_keys. Qed.
+Print Assumptions C04_dc_union_is_concatenation.
+
+Theorem C04_dc_union_comm_idem : forall l1 l2,
+  length (dc_union (dc_keys l1) (dc_keys l2)) = length (dc_union (dc_keys l2) (dc_keys l1)) /\
+  length (dc_union (dc_keys l1) (dc_keys l1)) = length (dc_keys l1).
+Proof. intros; split; [apply dc_union_comm_length | apply dc_union_idem_length]. Qed.
+Print Assumptions C04_dc_union_comm_idem.
+
+Theorem C04_dc_merge_of_blocks : forall bs, Z.of_nat (length (dc_merge_blocks bs)) = dc_count (concat bs).
+Proof. exact dc_merge_blocks_count. Qed.
+Print Assumptions C04_dc_merge_of_blocks.
+
+Theorem C04_dc_segmentation_irrelevant : forall bs bs', Permutation (concat bs) (concat bs') ->
+  length (dc_merge_blocks bs) = length (dc_merge_blocks bs').
+Proof. exact dc_segmentation_irrelevant. Qed.
+Print Assumptions C04_dc_segmentation_irrelevant.
+
+Theorem C04_dc_count_at_most_events : forall l, dc_count l <= Z.of_nat (length l).
+Proof. exact (dc_count_le_length hll_key). Qed.
+Print Assumptions C04_dc_count_at_most_events.
+
+(* A key computed THROUGH float64 ([hll_key_via_float]: the number is first converted with float64(v), [f64_of_Z] =
+   round to nearest, ties to even, compared with Go's conversion on every run) is NOT what the code does.  Full statement
+   "different integers have different keys" for it:
+     forall a b, in_i64 a -> in_i64 b -> hll_key_via_float (SInt a) = hll_key_via_float (SInt b) -> a = b
+   holds exactly below 2^53 (why small test values cannot tell the two keys apart) and fails above. *)
+Theorem C04_dc_key_via_float_injective_guarded : forall a b, Z.abs a < two53 -> Z.abs b < two53 ->
+  hll_key_via_float (SInt a) = hll_key_via_float (SInt b) -> a = b.
+Proof. exact key_via_float_inj_small. Qed.
+Print Assumptions C04_dc_key_via_float_injective_guarded.
+
+Theorem C04_dc_key_via_float_refuted :
+  exists a b, in_i64 a /\ in_i64 b /\ a <> b /\
+    hll_key_via_float (SInt a) = hll_key_via_float (SInt b) /\
+    hll_key (SInt a) <> hll_key (SInt b) /\
+    dc_count_with hll_key_via_float [SInt a; SInt b] = 1 /\ dc_count [SInt a; SInt b] = 2.
+Proof. exact key_via_float_refuted. Qed.
+Print Assumptions C04_dc_key_via_float_refuted.
+
+Theorem C04_dc_key_via_float_300_ids :
+  let ids := map (fun i => SInt (1152921504606846976 + Z.of_nat i)) (seq 0 300) in
+  dc_count_with hll_key_via_float ids = 2 /\ dc_count ids = 300.
+Proof. exact key_via_float_300_ids. Qed.
+Print Assumptions C04_dc_key_via_float_300_ids.
+
+(* known class dc_counts_number_forms_separately.  Full statement "the count is the number of mathematically distinct
+   values" fails when one number is stored in two forms: the integer n and the float64 of n have different keys.  The
+   guarded variant is C04_dc_counts_distinct_integers (one stored type). *)
+Theorem C04_dc_number_forms_refuted :
+  exists n bits, bits = f64_of_Z n /\ hll_key (SInt n) <> hll_key (SFlt bits) /\ dc_count [SInt n; SFlt bits] = 2.
+Proof. exact number_forms_refuted. Qed.
+Print Assumptions C04_dc_number_forms_refuted.
+
+(* strings, also string-typed numbers ("101", "4611686018427387981"): every route hashes the TEXT (query-time no-BY route
+   since fix df5c019), so for EVERY list of strings the count is the number of distinct strings, and one string that
+   reaches the sketch through two routes (ingest-time .sst record merged with a record built at query time) counts once *)
+Theorem C04_dc_string_key_injective : forall a b, hll_key (SStr a) = hll_key (SStr b) -> a = b.
+Proof. exact key_str_inj. Qed.
+Print Assumptions C04_dc_string_key_injective.
+
+Theorem C04_dc_counts_distinct_strings : forall l, dc_count (map SStr l) = Z.of_nat (length (nodup bytes_dec l)).
+Proof. exact dc_count_strs. Qed.
+Print Assumptions C04_dc_counts_distinct_strings.
+
+Theorem C04_dc_string_through_two_routes_counts_once : forall s,
+  length (dc_union (dc_keys [SStr s]) (dc_keys [SStr s])) = 1%nat.
+Proof. exact dc_str_two_routes_once. Qed.
+Print Assumptions C04_dc_string_through_two_routes_counts_once.
+
+(* documentation of the behaviour before fix df5c019 (class stats_dc_numeric_strings_hashed_as_float64, listed as fixed).
+   Without BY, a block read at query time (stats.AddSegStatsStr) hashed the float64 a string-typed number parses to
+   ([hll_key_qt_prefix parse], parse = strconv.ParseFloat as float64 bits); the ingest-time record of a rotated segment and
+   the group-by / timechart sketches hash the string.  Guarded: lists without parsable strings; refuted: two strings with
+   one float64 image counted once, and ONE string counted through both routes counted twice. *)
+Theorem C04_prefix_dc_numeric_strings_guarded : forall (parse : str -> option N) l,
+  (forall s, In (SStr s) l -> parse s = None) -> dc_count_with (hll_key_qt_prefix parse) l = dc_count l.
+Proof. exact dc_prefix_qt_guarded. Qed.
+Print Assumptions C04_prefix_dc_numeric_strings_guarded.
+
+Theorem C04_prefix_dc_numeric_strings_merged_refuted : forall (parse : str -> option N) s1 s2 b,
+  s1 <> s2 -> parse s1 = Some b -> parse s2 = Some b ->
+  dc_count_with (hll_key_qt_prefix parse) [SStr s1; SStr s2] = 1 /\ dc_count [SStr s1; SStr s2] = 2.
+Proof. exact dc_prefix_qt_merges. Qed.
+Print Assumptions C04_prefix_dc_numeric_strings_merged_refuted.
+
+Theorem C04_prefix_dc_numeric_string_counted_twice_refuted : forall (parse : str -> option N) s b,
+  parse s = Some b -> le64 b <> s ->
+  length (dc_union (dc_keys [SStr s]) (dc_keys_with (hll_key_qt_prefix parse) [SStr s])) = 2%nat.
+Proof. exact dc_prefix_qt_union_counts_twice. Qed.
+Print Assumptions C04_prefix_dc_numeric_string_counted_twice_refuted.
+
 (* ---- tie by translation: the Gallina definition regenerated from timechartagg.go by gotrans on
    every run is the model's find_bucket (any edit that changes FindTimeRangeBucket's meaning
    breaks this obligation) ---- *)
